@@ -48,9 +48,11 @@ def del : FS → Name → FS
 
 def put (fs : FS) (x : Name) (b : Bytes) : FS := (x, b) :: del fs x
 
-/-- Positioned write into a file's bytes (holes are zero filled, as POSIX does). -/
+/-- Positioned write into a file's bytes (holes are zero filled, as POSIX does; a zero-length
+write changes nothing). -/
 def pwrite (c : Bytes) (pos : Nat) (d : Bytes) : Bytes :=
-  c.take pos ++ List.replicate (pos - c.length) 0 ++ d ++ c.drop (pos + d.length)
+  if d.isEmpty then c
+  else c.take pos ++ List.replicate (pos - c.length) 0 ++ d ++ c.drop (pos + d.length)
 
 /-- What the caller's body does with the file object. -/
 inductive BOp
